@@ -225,6 +225,24 @@ def places_of(e, acc=None):
     return acc
 
 
+def assigned_key(pe):
+    """place key written by an assignment to place expression pe: the path itself; index
+    sub-expressions are read, not written"""
+    if pe[0] in ("arg", "var"):
+        return [show(pe)]
+    if pe[0] == "proj" and pe[1][0] in ("arg", "var"):
+        path = show(pe[1])
+        for el in pe[2]:
+            if isinstance(el, tuple):
+                path += "[]"
+            elif el.startswith("@") or el.startswith("["):
+                path += el
+            else:
+                path += "." + el
+        return [path]
+    return []
+
+
 def _norm_path(p):
     # key used for overlap tests: strip downcasts
     return re.sub(r"@[A-Za-z0-9_]+", "", p)
@@ -1166,9 +1184,7 @@ class FactsAnalysis:
                 pl = s["pl"]
                 pe = b.place_expr(pl) if pl["p"] else None
                 if pl["p"]:
-                    ks.extend(places_of(pe) if pe[0] == "proj" and pe[1][0] in ("arg", "var") else [])
-                    if pe[0] == "proj" and pe[1][0] in ("arg", "var"):
-                        pass
+                    ks.extend(assigned_key(pe))
                 else:
                     if not b.is_single_def(pl["l"]):
                         ks.append("var%d" % pl["l"] if not (1 <= pl["l"] <= b.argc) else "arg%d" % pl["l"])
@@ -1176,9 +1192,7 @@ class FactsAnalysis:
         if t["k"] == "call":
             pl = t["dest"]
             if pl["p"]:
-                pe = b.place_expr(pl)
-                if pe[0] == "proj" and pe[1][0] in ("arg", "var"):
-                    ks.extend(places_of(pe))
+                ks.extend(assigned_key(b.place_expr(pl)))
             elif not b.is_single_def(pl["l"]):
                 ks.append("var%d" % pl["l"])
             if self.kill_on_mut_calls:
@@ -1290,9 +1304,7 @@ class FactsAnalysis:
             if s["k"] in ("assign", "setdiscr"):
                 pl = s["pl"]
                 if pl["p"]:
-                    pe = b.place_expr(pl)
-                    if pe[0] == "proj" and pe[1][0] in ("arg", "var"):
-                        ks.extend(places_of(pe))
+                    ks.extend(assigned_key(b.place_expr(pl)))
                 elif not b.is_single_def(pl["l"]):
                     ks.append("var%d" % pl["l"])
         return self._apply_kills(st, ks)
